@@ -339,7 +339,7 @@ def _parse_object(
     properties.update(
         {
             _parse_attribute_name(key): _Property(
-                Element(), required=True, source=key
+                _undeclared_element(key, schema), required=True, source=key
             )
             for key in schema.get("required", [])
             if _parse_attribute_name(key) not in properties
@@ -364,6 +364,24 @@ def _parse_object(
             cls_args[key] = schema[key]
     object_type = ObjectMeta(title, (Object,), class_dict, **cls_args)
     return state.dedupe(object_type)
+
+
+def _undeclared_element(key: str, schema: Dict[str, Any]) -> Element:
+    """Get the element for a required key which `properties` does not declare.
+
+    Declaring it as a property must not exempt it from the keyword which
+    applies to undeclared keys: `additionalProperties`, unless it matches
+    one of the `patternProperties`.
+    """
+    if any(
+        re.search(pattern, key)
+        for pattern in schema.get("patternProperties", {})
+    ):
+        return Element()
+    additional = schema.get("additionalProperties", True)
+    if isinstance(additional, bool):
+        return Element() if additional else Nothing()
+    return additional
 
 
 def _parse_properties(
